@@ -1,5 +1,5 @@
 ----------------------------- MODULE MC_WriterMech --------------------------
-(* Mech => Prop for the CSV and HTML writers (C09): what WriterMech writes   *)
+(* Mech => Prop for the CSV, HTML, JSON writers (C09): what WriterMech writes   *)
 (* for a table is accepted by the format's recogniser of Formats.tla and     *)
 (* decodes to the same table - for every table of up to MaxRows rows and     *)
 (* MaxCols columns whose cells are drawn from Cells (all the characters that *)
@@ -16,6 +16,18 @@ AddRow == /\ Len(table) < MaxRows
 Spec == Init /\ [][AddRow]_table
 CsvRoundTrip == LET d == DecodeCsv(CsvMech(table)) IN d.ok /\ d.rows = table
 HtmlRoundTrip == LET d == DecodeHtml(HtmlMech(table)) IN d.ok /\ d.rows = table
+(* json: U+0001 .. U+001F stand as "^1" .. "^31" here (tab, LF, CR as themselves); keys deliberately not in byte order, the third repeats the first *)
+Ctl == [v \in 1 .. 31 |-> IF v = 9 THEN "\t" ELSE IF v = 10 THEN "\n" ELSE IF v = 13 THEN "\r" ELSE "^" \o ToString(v)]
+JKeys == << <<"b", "\"">>, <<"B">>, <<"b", "\"">> >>
+JCell(c) == IF c = <<"a">> THEN <<Ctl[1]>> ELSE IF c = <<" ">> THEN <<Ctl[8], Ctl[12]>> ELSE IF c = <<"'">> THEN <<"\\", Ctl[31]>> ELSE IF c = <<">">> THEN <<"\\", "n">> ELSE c
+JTable == [i \in 1 .. Len(table) |-> [j \in 1 .. Len(table[i]) |-> JCell(table[i][j])]]
+JsonRoundTrip == LET n == IF table = <<>> THEN 1 ELSE Len(table[1])
+                     keys == SubSeq(JKeys, 1, n)
+                     d == DecodeJson(JsonMech(keys, JTable, Ctl), Ctl) IN
+                 d.ok /\ d.rows = [i \in 1 .. Len(table) |-> JsonRowVals(keys, JTable[i])]
+ASSUME JsonMech(<< <<"b">>, <<"a">> >>, << << <<"x", "\"">>, <<Ctl[1], "\n">> >> >>, Ctl)
+         = <<"[", "{", "\"", "a", "\"", ":", "\"", "\\", "u", "0", "0", "0", "1", "\\", "n", "\"", ",", "\"", "b", "\"", ":", "\"", "x", "\\", "\"", "\"", "}", "]">>
+ASSUME JsonMech(<<>>, <<>>, Ctl) = <<"[", "]">>
 ASSUME CsvMech(<< <<<<"a">>, <<"b", ",">>>> >>) = <<"a", ",", "\"", "b", ",", "\"", "\n">>
 ASSUME CsvMech(<< <<<<>>>> >>) = <<"\"", "\"", "\n">> /\ CsvMech(<< <<<<>>, <<>>>> >>) = <<",", "\n">>
 =============================================================================
